@@ -638,6 +638,8 @@ def make_instance(spec, **overrides):
         kw["skip_graph_checks"] = set(spec["skip_graph_checks"])
     if spec.get("num_concurrent_runs") is not None:
         kw["num_concurrent_runs"] = spec["num_concurrent_runs"]
+    if spec.get("verbose"):
+        kw["verbose"] = True   # documented constructor flag: wraps the run's adapter in the verbose logger
     kw.update(overrides)
     if not cls._vf_late:
         return cls(**kw)
